@@ -62,10 +62,10 @@ FLOORS = {
     'crash:publish': 0.1,
     'retry-after-crash': 0.15,
     'publish:rejected': 0.04,
-    'train:second+': 0.3,
+    'train:second+': 0.15,
     'read:explicit': 0.03,
     'gap:train-after-prune': 0.01,
-    'volatile': 0.05,
+    'volatile': 0.02,
 }
 SHARDS_THOROUGH = 16
 
@@ -856,9 +856,9 @@ CANONICAL = [
 
 def campaigns(ctx):
     return [
-        Campaign('history', history('posix'), check_history, 80, 16),
+        Campaign('history', history('posix'), check_history, 70, 12),
         Campaign('gaps', history('posix', gap=True), check_history, 12, 3),
-        Campaign('volatile', history('volatile'), check_history, 30, 60),
+        Campaign('volatile', history('volatile'), check_history, 30, 150),
     ]
 
 
